@@ -838,6 +838,10 @@ func specialStreams(c *specialCtx) {
 	c.parallel(c.n/10+8, func(i int, d *driver) {
 		readerBufferCheck(c, d, newPrng(uint64(c.seed)*77+uint64(i)), i)
 	})
+	// the token reader's functions (ReadPrintableBytes, ReadByte, fill) against lean/TM/Reader.lean
+	c.parallel(c.n/3+40, func(i int, d *driver) {
+		readerFunctionCheck(c, d, newPrng(uint64(c.seed)*131+uint64(i)), i)
+	})
 	// a tee installed, replaced or removed while a Read is blocked in the backend: the bytes of
 	// that read go to the writer installed when they are read (the Read may have been waiting
 	// for as long as the application was silent)
